@@ -10,7 +10,10 @@ Inductive rd :=
 | RItem (i : item)            (* a cached element was called *)
 | RObj (c : cid)              (* an uncached cells was called *)
 | RAttr (r : rid)             (* a reference was read through an attribute path *)
-| RName (c : cid) (r : rid).  (* the formula of cells [c] read reference [r] by name *)
+| RName (c : cid) (r : rid)   (* the formula of cells [c] read reference [r] by name *)
+| RMask.                      (* a failure passed (or arose in) the clean-up of an [SFin] statement: the formula
+                                 fails; marks evaluations that no held element can have (the frames below are
+                                 tainted), never covered and never safe *)
 
 Fixpoint dr_expr (fuel : nat) (D : defs) (inp : list (item * val)) (me : cid) (args : key) (locs : list val)
   (e : expr) {struct fuel} : res val * list rd :=
@@ -128,6 +131,21 @@ with dr_body (fuel : nat) (D : defs) (inp : list (item * val)) (me : cid) (args 
               else (Err k, d1)
           | (OutOfFuel, d1) => (OutOfFuel, d1)
           end
+      | SFin e c :: more =>
+          match dr_expr f D inp me args locs e with
+          | (Val v, d1) =>
+              match dr_expr f D inp me args locs c with
+              | (Val _, d2) =>
+                  let (r, d3) := dr_body f D inp me args (locs ++ [v]) more in (r, d1 ++ d2 ++ d3)
+              | (r, d2) => (r, RMask :: d1 ++ d2)
+              end
+          | (Err k, d1) =>
+              match dr_expr f D inp me args locs c with
+              | (Val _, d2) => (Err k, RMask :: d1 ++ d2)
+              | (r, d2) => (r, RMask :: d1 ++ d2)
+              end
+          | (OutOfFuel, d1) => (OutOfFuel, d1)
+          end
       end
   end.
 
@@ -174,7 +192,7 @@ Proof.
     + rewrite <- (IHb D inp (fst i) (snd i) [] (cl_body cl)).
       destruct (dr_body f D inp (fst i) (snd i) [] (cl_body cl)) as [[v|k|] d]; simpl; reflexivity.
   - intros D inp me args locs rest. destruct rest as [|s more]; simpl; [reflexivity|].
-    destruct s as [e|e h].
+    destruct s as [e|e h|e c].
     + rewrite <- (IHe D inp me args locs e). destruct (dr_expr f D inp me args locs e) as [[v|k|] d1]; simpl; try reflexivity.
       rewrite <- (IHb D inp me args (locs ++ [v]) more). now destruct (dr_body f D inp me args (locs ++ [v]) more).
     + rewrite <- (IHe D inp me args locs e). destruct (dr_expr f D inp me args locs e) as [[v|k|] d1]; simpl; try reflexivity.
@@ -182,6 +200,10 @@ Proof.
       * destruct (catchable k); [|reflexivity].
         rewrite <- (IHe D inp me args locs h). destruct (dr_expr f D inp me args locs h) as [[v|k2|] d2]; simpl; try reflexivity.
         rewrite <- (IHb D inp me args (locs ++ [v]) more). now destruct (dr_body f D inp me args (locs ++ [v]) more).
+    + rewrite <- (IHe D inp me args locs e). rewrite <- (IHe D inp me args locs c).
+      destruct (dr_expr f D inp me args locs e) as [[v|k|] d1]; simpl; try reflexivity;
+        destruct (dr_expr f D inp me args locs c) as [[w|k2|] d2]; simpl; try reflexivity.
+      rewrite <- (IHb D inp me args (locs ++ [v]) more). now destruct (dr_body f D inp me args (locs ++ [v]) more).
 Qed.
 
 (** * Fuel monotonicity (result and reads) *)
@@ -264,7 +286,7 @@ Proof.
         -- pinv. congruence.
     + intros D inp me args locs rest r d H Hr f' Hle. dfuel f'.
       destruct rest as [|s more]; simpl in *; [assumption|].
-      destruct s as [e|e h].
+      destruct s as [e|e h|e c].
       * destruct (dr_expr f D inp me args locs e) as [[v|k|] d1] eqn:E1.
         -- rewrite (IHe _ _ _ _ _ _ _ _ E1 ltac:(discriminate) f' Hle).
            destruct (dr_body f D inp me args (locs ++ [v]) more) as [r2 d2] eqn:E2. pinv.
@@ -281,6 +303,20 @@ Proof.
            ++ rewrite (IHe _ _ _ _ _ _ _ _ E2 ltac:(discriminate) f' Hle).
               destruct (dr_body f D inp me args (locs ++ [v]) more) as [r3 d3] eqn:E3. pinv.
               now rewrite (IHb _ _ _ _ _ _ _ _ E3 Hr f' Hle).
+           ++ now rewrite (IHe _ _ _ _ _ _ _ _ E2 ltac:(discriminate) f' Hle).
+           ++ pinv. congruence.
+        -- pinv. congruence.
+      * destruct (dr_expr f D inp me args locs e) as [[v|k|] d1] eqn:E1.
+        -- rewrite (IHe _ _ _ _ _ _ _ _ E1 ltac:(discriminate) f' Hle).
+           destruct (dr_expr f D inp me args locs c) as [[w|k2|] d2] eqn:E2.
+           ++ rewrite (IHe _ _ _ _ _ _ _ _ E2 ltac:(discriminate) f' Hle).
+              destruct (dr_body f D inp me args (locs ++ [v]) more) as [r3 d3] eqn:E3. pinv.
+              now rewrite (IHb _ _ _ _ _ _ _ _ E3 Hr f' Hle).
+           ++ now rewrite (IHe _ _ _ _ _ _ _ _ E2 ltac:(discriminate) f' Hle).
+           ++ pinv. congruence.
+        -- rewrite (IHe _ _ _ _ _ _ _ _ E1 ltac:(discriminate) f' Hle).
+           destruct (dr_expr f D inp me args locs c) as [[w|k2|] d2] eqn:E2.
+           ++ now rewrite (IHe _ _ _ _ _ _ _ _ E2 ltac:(discriminate) f' Hle).
            ++ now rewrite (IHe _ _ _ _ _ _ _ _ E2 ltac:(discriminate) f' Hle).
            ++ pinv. congruence.
         -- pinv. congruence.
